@@ -170,7 +170,7 @@ def conclude(prop, tier, seed, kunits, kres, kinfo, vunits, vres, vinfo, known, 
         "bounded_not_counted": [r for r in per_obl if r["kind"] != "complete"],
         "unverified_gates": unverified,
         "undecided": undecided,
-        "known_findings_reproduced": known_lines,
+        "known_findings_printed": known_lines,
         "notes": notes,
         "cbmc_checks_total": sum(e["checks"] for e in kres.values()),
         "covers_satisfied": sum(len(e["covers_ok"]) for e in kres.values()),
